@@ -114,6 +114,9 @@ def specs() -> list[tuple[str, int, bool]]:
     for cn in S.device_classes():
         out.append((cn, 0, False))
         out.append((cn, 7, True))
+    # the same classes with the options that change how a received value is read (inversions, setpoint-shift modes and steps, ranges, other value types)
+    for cn in S.variant_names():
+        out.append((cn, 0, False))
     return out
 
 
@@ -264,8 +267,8 @@ def worker(si: int, ai: int, seed: int, thorough: bool) -> Part:
                 for payload in alphabet:
                     entries: list[Any] = [None, "no-such-dpt", "temperature" if not isinstance(payload, DPTBinary) else "switch"]
                     cands = dpts_for(payload)
-                    if thorough:
-                        entries += cands
+                    if thorough or "#" in cn:
+                        entries += cands   # (non-default configurations: every type of the payload's shape, also in the quick tier)
                     else:
                         # quick: every type related to the remote value's own type (itself, sub- and superclasses) and every 4th other one
                         rel = [c for c in cands if any(issubclass(c, o) or issubclass(o, c) for o in own)]
@@ -283,7 +286,7 @@ def worker(si: int, ai: int, seed: int, thorough: bool) -> Part:
                 # histories of two telegrams to the same address: first without/with own entry, then with every same-shape entry
                 # (first telegram: 3 binary values, 3 one-octet arrays, and for every longer length the all-ones array - a fully valid
                 #  structured value that a later partial update is merged into)
-                for p1 in alphabet[:3] + alphabet[7:10] + [a for a in alphabet if isinstance(a, DPTArray) and len(a.value) > 1 and set(a.value) == {0xFF}]:
+                for p1 in ([] if "#" in cn and not thorough else alphabet[:3] + alphabet[7:10] + [a for a in alphabet if isinstance(a, DPTArray) and len(a.value) > 1 and set(a.value) == {0xFF}]):
                     for p2 in alphabet:
                         if type(p1) is not type(p2) or (isinstance(p1, DPTArray) and len(p1.value) != len(p2.value)):
                             continue
@@ -345,7 +348,7 @@ def queue_worker(si: int, ai: int, seed: int) -> Part:
 def run(ctx: Ctx) -> None:
     n = len(specs())
     ctx.rule = (
-        f"every device class ({len(S.device_classes())}, two address layouts each, Climate with its mode) with one distinct group address per address parameter; for EVERY address of the device x "
+        f"every device class ({len(S.device_classes())}, two address layouts each, Climate with its mode; plus {len(S.variant_names())} non-default configurations: inverted covers / switches / binary sensors, setpoint shift modes with steps 0.5 and 0.25, fan steps, kelvin ranges, other value types) with one distinct group address per address parameter; for EVERY address of the device x "
         f"{len(payload_alphabet(ctx.seed))} payloads (binary values and arrays of length 1,2,3,4,6,8,14 over 7+ fills) x table entry in {{none, unknown name, a named type, EVERY DPT class of the payload's "
         "shape (incl. sub- and super-classes of the remote value's own type), 4 types of other shapes}: the telegram is eager-decoded by the real GroupAddressDPT and processed by one fresh device, and "
         "processed without table by a second fresh device; additionally Sensor / NumericValue / ExposeSensor with EVERY DPT class as value type x EVERY DPT class of the same payload shape as table entry; oracle: decoded_data = the table type's from_knx (or absent), identical outcome and identical device snapshot (every remote value's value, last "
